@@ -2433,10 +2433,17 @@ func rpQueryCase(cluster *metadata.Response, a rpArg, connTopic string, v6 bool)
 func main() {
 	seed := flag.Int64("seed", 1, "PRNG seed")
 	count := flag.Int("n", 400, "number of cases per family")
+	subset := flag.String("subset", "", "run one family only: cut = responses cut at byte k through the real Transport (hosted for C17)")
+	cutStride := flag.Int("cutstride", 4, "-subset cut: distance between the cut positions")
 	flag.Parse()
 	r := rand.New(rand.NewSource(*seed))
 	out = bufio.NewWriterSize(os.Stdout, 1<<20)
 	defer out.Flush()
+
+	if *subset == "cut" {
+		tierCut(r, *cutStride)
+		return
+	}
 
 	tier1(r, *count)
 	tier2ListOffsets(r, *count)
